@@ -254,6 +254,12 @@ def run(ctx):
     ei = P.get('<ElementsIterator as Iterator>::next')
     nones = [pos for pos, s_ in ei.iter_stmts() if s_['k'] == 'assign' and s_['dst']['l'] == 0 and not s_['dst']['p'] and s_['rv']['k'] == 'agg' and s_['rv'].get('var') == 'None']
     lens = [pos for pos, tt in ei.iter_terms() if tt['k'] == 'switch' and is_local_op(tt['d']) and any(st['k'] == 'assign' and st['rv']['k'] == 'bin' and st['rv']['op'] in ('Lt', 'Gt', 'Ge', 'Le') for q, st in __import__('flow').defs_of(ei, tt['d']['l']))]
+    # `while let Some(item) = content.get(index)`: the None result of slice::get(index) IS "index reached the number of items"
+    for pos_, t_ in ei.iter_calls():
+        if call_matches(t_, r'<impl \[T\]>::get$|SmallVec::<A>::get$|Vec::<T, A>::get$') and t_['args']:
+            f_ = _ds(ei, t_['args'][0], depth=10)[2]
+            if any(x.endswith('ElementRaw.content') for x in f_):
+                lens.append(pos_)
     C.check(bool(nones) and bool(lens) and all(must_pass(ei, (0, 0), [n_], through=set(lens)) for n_ in nones), 'C03-MUST-enumerate', 'ElementsIterator::next|ends-only-at-item-count', 'sub_elements() can end before the index reached the number of content items', '%s:%d' % (ei.file, ei.line))
     # a file merge never links one element twice: an element of the new file is merged into its counterpart OR imported
     C.rule('C03-DEV-merge-disjoint', 'in merge_element an element of the new file is queued for import only over the false edge of "already paired with a model element": otherwise it would stay a child of its old parent content AND be inserted below the model parent (two parents, subtree visited twice)')
